@@ -24,7 +24,7 @@ import (
 // library's own contract: a wrong-size nonce given to an AEAD or a wrong-size IV given to CBC panics there, so a
 // missing size check in kit shows up as a panic here.)
 //
-//verif:harness prop=C07 name=sym_nopanic unwind=90
+//verif:harness prop=C07 name=sym_nopanic unwind=90 qtimeout=60
 func VerifSymNoPanic() {
 	zzverifstubs.Init()
 	type alg struct {
